@@ -49,6 +49,24 @@ Theorem C03_least_loaded : forall v s n ofp o p s',
               c_nat c = n /\ c_fp c = fp_of ofp /\ c_offer c = o /\ c_pc c = C_Send.
 Proof. exact least_loaded. Qed.
 
+(* Loads are Go ints: 64 bit, SIGNED, and the wire accepts every value of that range. The model's loads are N and the
+   model only compares them; the runner feeds it emb z = z + 2^63 for the int64 value z (Model/BrokerHeap.v), under which
+   the order of the model IS the order of the integers - for every pair of the range, also two counts more than
+   MaxInt64 apart (MaxInt64 and -8), where a comparison by the sign of a 64-bit difference goes wrong. *)
+Theorem C03_load_order_is_integer_order : forall a b, int64_range a = true -> int64_range b = true ->
+  sf_less (0%nat, emb a) (1%nat, emb b) = (a <? b)%Z /\ unemb (emb a) = a.
+Proof. intros a b Ha Hb. split; [exact (emb_order a b Ha Hb)|exact (unemb_emb a Ha)]. Qed.
+
+Example C03_load_order_extreme_example :
+  int64_range 9223372036854775807 = true /\ int64_range (-8) = true /\ int64_range (-9223372036854775808) = true /\
+  sf_less (0%nat, emb (-8)) (1%nat, emb 9223372036854775807) = true /\
+  sf_less (0%nat, emb 9223372036854775807) (1%nat, emb (-8)) = false /\
+  (* the 64-bit difference of the same two counts has the wrong sign *)
+  ((9223372036854775807 - -8 + 9223372036854775808) mod 18446744073709551616 - 9223372036854775808 <? 0)%Z = true /\
+  fst (lpop sf_less (lpush sf_less (1%nat, emb (-8)) (lpush sf_less (0%nat, emb 9223372036854775807) []))) =
+    [(0%nat, emb 9223372036854775807)].
+Proof. repeat split; vm_compute; reflexivity. Qed.
+
 (* The relational pool above is what the real data structure delivers: the broker's SnowflakeHeap is Go's
    container/heap (Model/GoHeap.v, validated against the standard library by the C17 correspondence) over a
    slice ordered by client count. After ANY sequence of pushes (AddSnowflake), guarded pops (matchSnowflake)
